@@ -356,6 +356,10 @@ def flat_write_events(facts, fn, conds=(), seen=None, depth=0):
                             s_['e'] = subst(s_['e'], mapping)
                         s_['conds'] = list(e2['conds']) + [subst(c, mapping) for c in s_['conds'][len(e2['conds']):]]
                     s_.setdefault('outer_fns', []).append(fn)
+                    if mapping:
+                        pm = s_.setdefault('param_map', {})
+                        for k_, v_ in mapping.items():
+                            pm.setdefault(k_, v_)
                 out.extend(sub)
                 continue
         out.append(e2)
@@ -400,6 +404,9 @@ def event_inits(facts, ev, cache=None):
                 cache[f] = bi
         for k, v in bi.items():
             res.setdefault(k, v)
+    # locals derived from a helper's parameter (`let Some((first, rest)) = list.split_first()`) lead back to the argument
+    for k, v in (ev.get('param_map') or {}).items():
+        res.setdefault(k, [v])
     return res
 
 
